@@ -81,6 +81,29 @@ def fixed_programs():
     ]
 
 
+def deep_chain(d):
+    lines = ['PROGRAM p1 IN a OUT a DO a := a + 1 END']
+    for k in range(2, d + 1):
+        lines.append('PROGRAM p%d IN a OUT a DO a := RUN p%d WITH a END END' % (k, k - 1))
+    lines.append('x1 := 2;\nLOOP x1 DO\n  x0 := RUN p%d WITH x0 END\nEND' % d)
+    return '\n'.join(lines) + '\n'
+
+
+def boundary_depths():
+    import glob, os, re
+    out = {255, 256, 257, 300, 1025}
+    for f in sorted(glob.glob(os.path.join(vlib.REPO, 'VM/src/*.cpp')) + glob.glob(os.path.join(vlib.REPO, 'VM/include/*.hpp'))):
+        t = re.sub(r'//[^\n]*', '', open(f, errors='replace').read())
+        for m in re.finditer(r'(?<![\w.])(\d{2,4})(?![\w.])', t):
+            v = int(m.group(1))
+            if 16 <= v <= 1100:
+                out |= {v - 1, v, v + 1}
+        for m in re.finditer(r'1u?\s*<<\s*(\d+)', t):
+            if 4 <= int(m.group(1)) <= 10:
+                out |= {2 ** int(m.group(1)) - 1, 2 ** int(m.group(1)), 2 ** int(m.group(1)) + 1}
+    return sorted(out)
+
+
 def get_path(ctx, progs, maxsteps):
     """the uninterrupted instruction path of each program (single steps, stepping off)"""
     reqs = ['VM %s ops=%s cap=10' % (p.text, ','.join(['s'] * maxsteps)) for p in progs]
@@ -266,6 +289,14 @@ def debugger_suite(ctx, n_random, hist_len, exhaustive_len, big=False):
         o = impl(ctx, ['GEN ' + files_req(b'm', fl)])[0]
         if not is_crash(o) and fields(o).get('ok') == '1':
             cases.append({'defs': defs, 'main': main, 'files': fl, 'mainf': b'm', 'text': {k.decode(): v.decode() for k, v in fl.items()}, 'prog': Prog(fields(o))})
+    # call chains at boundary depths (powers of two around 256 / 1024 and every constant of the VM sources, +-1): the
+    # language has no recursion, so depth d needs d chained definitions
+    for d_ in boundary_depths():
+        src = deep_chain(d_)
+        o = impl(ctx, ['GEN ' + files_req(b'm', {b'm': src.encode()})], timeout=120)[0]
+        if not is_crash(o) and fields(o).get('ok') == '1':
+            cases.append({'defs': [], 'main': [], 'files': {b'm': src.encode()}, 'mainf': b'm', 'text': 'deep_chain(%d): p1 .. p%d, each calling the previous one, the last called twice in a LOOP' % (d_, d_),
+                          'prog': Prog(fields(o)), 'deep': d_})
     fixed = []
     for src in fixed_programs():
         fixed.append({'defs': None, 'main': None, 'files': {b'm': src.encode()}, 'mainf': b'm', 'text': src})
@@ -311,6 +342,10 @@ def debugger_suite(ctx, n_random, hist_len, exhaustive_len, big=False):
             if r.random() < 0.4:
                 h.append('v')
         jobs.append((c, h + ['v']))
+    for c in keep:
+        if c.get('deep'):
+            jobs.append((c, ['e', 'v', 'e', 'e', 'v']))
+            jobs.append((c, ['s'] * (4 * c['deep'] + 40) + ['v', 'e', 'v']))
     # every available line enabled at once, then run: a stale or misplaced site shows up as a changed computation
     for c in keep:
         if c['defs'] is not None and len(c.get('files', {})) > 1:
